@@ -5,6 +5,7 @@ value spec (JSON-able):
     ["bytes", latin1-text]           bytes value
     ["probe", id, retspec]           logging callable; returns built(retspec)
     ["raiser", id, excname, msg]     logging callable that raises
+    ["probef", id]                   logging callable f(*args) -> args[0]
     ["obj", {attr: spec}]            plain object with attributes
     ["map", {key: spec}]             dict
     ["seq", kind, [spec...]]         kind: list | tuple | iter | gen | lazy
@@ -137,6 +138,15 @@ class World:
             world = self
 
             return Probe(world, ident, ret)
+        if k == 'probef':
+            # logging callable with arguments; returns its first argument
+            ident = spec[1]
+            world = self
+
+            def probef(*args):
+                world.point(ident)
+                return args[0] if args else None
+            return probef
         if k == 'raiser':
             ident, en, msg = spec[1], spec[2], spec[3]
             world = self
